@@ -7,13 +7,15 @@ use rv_ledger::actions::World;
 use std::time::Duration;
 
 mod c02;
+mod c06;
 mod mix;
 
 fn main() {
     let args = parse_args();
     let code = match args.prop.as_str() {
         "C02" => c02::run(&args),
-        "C03" | "C04" | "C05" | "C06" | "C11" | "C43" | "C44" | "C49" | "C51" => mix::run(&args),
+        "C06" => c06::run(&args),
+        "C03" | "C04" | "C05" | "C11" | "C43" | "C44" | "C49" | "C51" => mix::run(&args),
         other => {
             eprintln!("rv-engine: no check named {other}");
             2
